@@ -435,6 +435,9 @@ def frameInto (cfg : Cfg) (t : TCfg) (r1 : R) (buf : Bytes) : R × Res × Bytes 
 /-- `next_frame` (mod.rs:384-449) into a caller buffer with contents `buf`; also returns the buffer afterwards
     (partially written when the call fails) -/
 def nextFrameBuf (cfg : Cfg) (t : TCfg) (r : R) (buf : Bytes) : R × Res × Bytes :=
+  -- rows of the current frame are still to be delivered (the end of its data may already have been seen while earlier rows
+  -- were read): this frame is finished first (repair 429476f)
+  if r.sub.cur.isSome then frameInto cfg t r buf else
   if r.remaining = 0 then (r, .err .parameter "PolledAfterEndOfImage", buf) else
   let adv : R × Except Res Unit := if r.sub.caf then readUntilImageData cfg t r else (r, .ok ())
   match adv with
